@@ -11,7 +11,9 @@
    its two recursive calls on (prev, curr) and (curr, next); so the call's net effect is a list
    of entries spliced between [prev] and its successor, which is what [do_index] returns.
 
-   Not modelled: read_line's UTF-8 validation (inputs are ASCII), I/O errors. *)
+   The partial line after a probe's seek is skipped on bytes (read_until; the repair of the
+   read_line that failed inside a multi-byte character), every other line is read from its start,
+   so read_line's UTF-8 validation never fails on valid UTF-8 input.  Not modelled: I/O errors. *)
 From BT Require Import Base.Util.
 Local Open Scope N_scope.
 
